@@ -268,3 +268,21 @@ PROPS["C18"] = dict(
     rule="cases = random Hermitian matrices by family x nroots, random restricted Hamiltonians by (norb, nalpha, nbeta); "
          "every case distinct by index",
 )
+
+PROPS["C12"] = dict(
+    level="proof",
+    technique="Lean 4 theorems (in-place safety of every column step: table entries read determinants with the column orbital "
+              "occupied and write determinants with it empty; diagonal entries are scalings) + correspondence of "
+              "transform() with the exact many-body image Gamma((R P)^dagger) computed by minors in the Lean Spec driver",
+    text="PARTIAL proof: the structural facts that make the column-by-column in-place algorithm sound are proved for all "
+         "strings and orbitals; that the ordered product of the column factors equals Gamma of the LU-reassembled matrix "
+         "needs multiplicativity of Gamma (Cauchy-Binet, not in Mathlib v4.33) and is not proved. The whole statement is "
+         "checked against Spec/Rotate.lean (exact determinants of the dyadic-rational matrix entries): restricted, "
+         "spin-block-diagonal and spin-mixing rotations; generic, real, signed/phase permutation, pivot-forcing and "
+         "near-identity unitaries; reported factors L U = (R P)^dagger, norm, and restoration by the adjoint with the factors.",
+    note="Lean kernel; scipy.linalg.lu / solve_triangular are called, not verified (law P L U = A checked per case); the "
+         "deciding part for the full property is the numerical correspondence (norb<=3, tolerance 1e-9).",
+    design_ref="DESIGN.md §5 C12",
+    rule="cases = (rotation form, unitary family, wavefunction kind, norb) transformations + back transformations; every case "
+         "distinct by index",
+)
